@@ -132,6 +132,16 @@ def check_scan(prog, rep, m):
     entry = 'polygonize scan'
     follows = [n for n in f.own_nodes() if isinstance(n, ast.Assign) and isinstance(n.value, ast.Call) and short(n.value) == '_follow']
     pm = parent_map(f.node)
+    # the start-pixel scan looks at every pixel: holes (also holes of masked cells, which start no region) are found
+    # on the N side of ANY pixel, so the scan may not stop when the last region's start pixel has been seen
+    scans = [n for n in f.own_nodes() if isinstance(n, ast.For) and any(x in follows for x in ast.walk(n))]
+    for lp in scans:
+        it = T(lp.iter)
+        full = it in ('range(nx*ny)', 'range(0,nx*ny)', 'range(ny*nx)', 'range(len(regions))', 'range(regions.size)', 'range(regions.shape[0])')
+        exits = [x for x in ast.walk(lp) if isinstance(x, (ast.Break, ast.Return))]
+        rep.add('G5', f, entry, 'start-pixel scan: for %s in %s, %d early exits' % (T(lp.target), norm(lp.iter), len(exits)), lp.lineno,
+                full and not exits, 'every pixel must be examined as a possible start of an exterior or of a hole: an early exit '
+                '(e.g. once all regions have their exterior) loses holes that lie later in scan order, such as holes made of masked cells')
     for n in follows:
         blk = None
         p = pm.get(n)
